@@ -415,6 +415,12 @@ func noteMiss(what string) {
 	if os.Getenv("VERIF_C10_DEBUG") != "" {
 		fmt.Fprintln(os.Stderr, "c10: wait expired:", what, "after", opDeadline)
 	}
+	if path := os.Getenv("VERIF_C10_MISSLOG"); path != "" {
+		if f, err := os.OpenFile(path, os.O_APPEND|os.O_CREATE|os.O_WRONLY, 0644); err == nil {
+			fmt.Fprintln(f, "wait expired:", what, "after", opDeadline)
+			f.Close()
+		}
+	}
 	if patience > patienceAfterMiss {
 		patience = patienceAfterMiss
 	}
